@@ -20,6 +20,7 @@
 #include "hwloc.h"
 #include "private/private.h"
 #include <stdio.h>
+#include <ctype.h>
 #include <stdlib.h>
 #include <string.h>
 #include <errno.h>
@@ -238,6 +239,32 @@ static void fmt_loc(char *buf, size_t n, const struct hwloc_location *l)
   else snprintf(buf, n, "badtype:%d", (int)l->type);
 }
 
+/* attribute names in scripts: bytes other than [A-Za-z0-9_.+-] are written %XX, "@empty" is the empty name */
+static char *decode_name(const char *tok)
+{
+  size_t n = strlen(tok), i, j = 0; char *out = malloc(n + 1);
+  if (!out) return NULL;
+  if (!strcmp(tok, "@empty")) { out[0] = 0; return out; }
+  for (i = 0; i < n; i++) {
+    if (tok[i] == '%' && i + 2 < n && isxdigit((unsigned char)tok[i + 1]) && isxdigit((unsigned char)tok[i + 2])) {
+      char h[3] = { tok[i + 1], tok[i + 2], 0 };
+      out[j++] = (char)strtoul(h, NULL, 16);
+      i += 2;
+    } else out[j++] = tok[i];
+  }
+  out[j] = 0;
+  return out;
+}
+static void print_name(const char *nm)
+{
+  const unsigned char *p = (const unsigned char *)nm;
+  if (!*p) { OUT("@empty"); return; }
+  for (; *p; p++) {
+    if (isalnum(*p) || *p == '_' || *p == '.' || *p == '+' || *p == '-') OUT("%c", *p);
+    else OUT("%%%02X", *p);
+  }
+}
+
 /* ---------- operations ---------- */
 
 static void op_targets(char **t, int nt)
@@ -452,12 +479,16 @@ static void do_op(char *line)
   if (!strcmp(op, "reg")) {
     unsigned long flags; hwloc_memattr_id_t id = (hwloc_memattr_id_t)-1; int rc, e;
     if (nt != 3 || parse_ul(t[2], &flags) < 0) { res_bad(op); return; }
-    errno = 0; rc = hwloc_memattr_register(topo, strcmp(t[1], "@null") ? t[1] : NULL, flags, &id); e = errno;
+    { char *nm = strcmp(t[1], "@null") ? decode_name(t[1]) : NULL;
+      errno = 0; rc = hwloc_memattr_register(topo, nm, flags, &id); e = errno;
+      free(nm); }
     if (rc < 0) res_fail(op, e); else OUT("R reg rc=0 err=OK id=%u\n", id);
   } else if (!strcmp(op, "getbyname")) {
     hwloc_memattr_id_t id = (hwloc_memattr_id_t)-1; int rc, e;
     if (nt != 2) { res_bad(op); return; }
-    errno = 0; rc = hwloc_memattr_get_by_name(topo, t[1], &id); e = errno;
+    { char *nm = decode_name(t[1]);
+      errno = 0; rc = hwloc_memattr_get_by_name(topo, nm ? nm : "", &id); e = errno;
+      free(nm); }
     if (rc < 0) res_fail(op, e); else OUT("R getbyname rc=0 err=OK id=%u\n", id);
   } else if (!strcmp(op, "getflags")) {
     hwloc_memattr_id_t id; unsigned long fl = 0xdead; int rc, e;
@@ -468,7 +499,7 @@ static void do_op(char *line)
     hwloc_memattr_id_t id; const char *nm = NULL; int rc, e;
     if (nt != 2 || parse_id(t[1], &id) < 0) { res_bad(op); return; }
     errno = 0; rc = hwloc_memattr_get_name(topo, id, &nm); e = errno;
-    if (rc < 0) res_fail(op, e); else OUT("R getname rc=0 err=OK name=%s\n", nm ? nm : "(null)");
+    if (rc < 0) res_fail(op, e); else { OUT("R getname rc=0 err=OK name="); print_name(nm ? nm : "(null)"); OUT("\n"); }
   } else if (!strcmp(op, "set")) {
     hwloc_memattr_id_t id; hwloc_obj_t tgt; struct locarg la; unsigned long flags; unsigned long long v; int rc, e;
     if (nt != 6 || parse_id(t[1], &id) < 0 || parse_tgt(t[2], &tgt) < 0 || parse_ul(t[4], &flags) < 0 || parse_u64(t[5], &v) < 0
